@@ -4,6 +4,7 @@ mod c04;
 mod c04bash;
 mod c06;
 mod c07bash;
+mod c13;
 mod cpipe;
 mod csem;
 mod gram;
@@ -92,6 +93,7 @@ fn main() {
             "c06_display" => c06::replay_display(&args[3..]),
             "c07_bash" => c07bash::replay(&args[3..]),
             "c04_tables" => c04::replay(&args[3..]),
+            "c13_locations" | "c13_cli" => c13::replay(&args[2], &args[3..]),
             "c11_choice" | "c15_warnings" | "c08_classify" => csem::replay(&args[2], &args[3..]),
             "c06_spans" => c06::replay_spans(&args[3..]),
             "c06_cli" => c06::replay_cli(&args[3..]),
@@ -127,6 +129,8 @@ fn main() {
         "c06_display" => c06::display(thorough),
         "c07_bash" => c07bash::run(thorough),
         "c04_tables" => c04::run(thorough, seed),
+        "c13_locations" => c13::run_library(thorough),
+        "c13_cli" => c13::run_cli(thorough),
         "c11_choice" => csem::c11(thorough),
         "c15_warnings" => csem::c15(thorough, seed),
         "c08_classify" => csem::c08(thorough),
